@@ -1,4 +1,4 @@
-import SgModel.Lemmas.Wal
+import SgModel.Lemmas.WalFlipLen
 /-!
 # C15 — the WAL replays exactly the durable prefix, in order
 
@@ -274,15 +274,102 @@ theorem C15_model_refines_spec_history (dec : Dec) (ops : List Op) (hN : ops.len
   simp only [hsubseq, hint, beq_self_eq_true, Bool.and_true]
   exact hto.2
 
+/-- **Every durable record is delivered**: for every history, each entry the specification
+marks durable (appended in sync mode, or followed by a flush / checkpoint / reopen / the
+final clean close before any crash) is among the entries the model's final replay delivers
+— `specDurable`, as the harness evaluates it on the real `Wal`. -/
+theorem C15_model_refines_spec_durable (dec : Dec) (ops : List Op) (hN : ops.length < 256 ^ 8)
+    (he : ∀ e ∈ opEntries ops, WFEntry dec e) (top : Nat) :
+    specDurable ops (finalObs Mode.fixed dec ops top) = true := by
+  have hinv : Inv dec (run Mode.fixed dec ops) := inv_run ops hN he
+  have hfin : finalObs Mode.fixed dec ops top
+      = observe Mode.fixed dec (dir (run Mode.fixed dec ops)) top := by
+    simp [finalObs, dir_close]
+  unfold specDurable
+  rw [hfin, observe_runs hinv top]
+  simp only [List.all_eq_true]
+  intro q hq
+  cases hq2 : q.2 with
+  | false => simp
+  | true =>
+    have := durability_live (dec := dec) ops {} 0 [] [] (inv_init dec) (Nat.le_refl _)
+      (by simpa using hN) he (by simp) (by simp) (by simp) q hq hq2
+    simp only [Bool.not_true, Bool.false_or, List.contains_iff_mem]
+    exact this
+
+/-- **Every truncation offset**: for every history, every file index `i` and every byte
+count `k`, what the model observes of the directory with file `i` cut to `k` bytes
+(`Wal::new` + `replay(from, ·)` for every `from`) satisfies `specTrunc` for the records the
+files hold — exactly the whole records before the cut survive, every other file is
+untouched, replay succeeds, sequences stay strictly increasing and `Wal::new` resumes at or
+above them.  (`(dir s).map (recsOf dec)` is, per file, what `replay` returns for it.) -/
+theorem C15_model_refines_spec_trunc (dec : Dec) (ops : List Op) (hN : ops.length < 256 ^ 8)
+    (he : ∀ e ∈ opEntries ops, WFEntry dec e) (i k top : Nat) :
+    let s := run Mode.fixed dec ops
+    specTrunc ((dir s).map (recsOf dec)) i k
+      (observe Mode.fixed dec ((dir s).modify i (fun f => { f with data := f.data.take k })) top)
+      = true :=
+  specTrunc_of_dirOK (inv_run ops hN he).ok i k top
+
+/-- **Every single-byte flip in the covered region**: for every history with pairwise distinct
+entries, every file `i` of the directory, every offset `p` that lies in the entry bytes or in
+the stored checksum of one of its records (`locate`), and every non-zero mask, what the
+model observes of the directory with that byte XOR-ed satisfies `specFlip`: the replay
+fails, exactly the records before the damaged one are delivered (for every `from`, under
+their original sequences), nothing altered is delivered.  Nothing is assumed of the decoder
+on the damaged bytes. -/
+theorem C15_model_refines_spec_flip (dec : Dec) (ops : List Op) (hN : ops.length < 256 ^ 8)
+    (he : ∀ e ∈ opEntries ops, WFEntry dec e) (hnd : (opEntries ops).Nodup)
+    (i p j : Nat) (g : Region) (f : File) (mask : UInt8) (hm : mask ≠ 0) (top : Nat)
+    (hget : (dir (run Mode.fixed dec ops))[i]? = some f)
+    (hloc : locate (recsOf dec f) p = some (j, g)) (hreg : g = .entry ∨ g = .cksum) :
+    let s := run Mode.fixed dec ops
+    specFlip ((dir s).map (recsOf dec)) i p
+      (observe Mode.fixed dec
+        ((dir s).modify i (fun f => { f with data := flipByte f.data p mask })) top) = true := by
+  intro s
+  have hinv : Inv dec s := inv_run ops hN he
+  have hsub := (allRecs_foldl ops {} 0 (inv_init dec) (Nat.le_refl _) (by simpa using hN) he).1
+  have h0 : allRecs dec ({} : State) = [] := rfl
+  simp only [h0, List.map_nil, List.nil_append] at hsub
+  exact specFlip_of_dirOK hinv.ok (hsub.nodup hnd) hget hloc hreg mask hm top
+
+/-- **Every single-byte flip in a length prefix**: likewise for an offset `p` inside the 4-byte
+length prefix of a record, under the decoder contract in its prefix-free form (a proper
+prefix of an appended entry's encoding does not decode — bincode runs out of bytes).  The
+replay then stops at that record with an error, or (prefix pointing past the end of the
+file) treats it as torn: its file ends there and later files follow.  Nothing altered is
+delivered. -/
+theorem C15_model_refines_spec_flip_len (dec : Dec) (ops : List Op) (hN : ops.length < 256 ^ 8)
+    (he : ∀ e ∈ opEntries ops, WFEntry dec e) (hnd : (opEntries ops).Nodup)
+    (hpf : ∀ e ∈ opEntries ops, ∀ m, m < e.length → dec (e.take m) = none)
+    (i p j : Nat) (f : File) (mask : UInt8) (hm : mask ≠ 0) (top : Nat)
+    (hget : (dir (run Mode.fixed dec ops))[i]? = some f)
+    (hloc : locate (recsOf dec f) p = some (j, .len)) :
+    let s := run Mode.fixed dec ops
+    specFlip ((dir s).map (recsOf dec)) i p
+      (observe Mode.fixed dec
+        ((dir s).modify i (fun f => { f with data := flipByte f.data p mask })) top) = true := by
+  intro s
+  have hinv : Inv dec s := inv_run ops hN he
+  have hsub := (allRecs_foldl ops {} 0 (inv_init dec) (Nat.le_refl _) (by simpa using hN) he).1
+  have h0 : allRecs dec ({} : State) = [] := rfl
+  simp only [h0, List.map_nil, List.nil_append] at hsub
+  have hmem : ∀ r ∈ recsOf dec f, r.entry ∈ opEntries ops := by
+    intro r hr
+    have : r ∈ allRecs dec s :=
+      List.mem_flatten.mpr ⟨recsOf dec f, List.mem_map.mpr ⟨f, List.mem_of_getElem? hget, rfl⟩, hr⟩
+    exact hsub.subset (List.mem_map.mpr ⟨r, this, rfl⟩)
+  exact specFlipLen_of_dirOK hinv.ok (hsub.nodup hnd) hget (fun r hr => hpf _ (hmem r hr)) hloc
+    mask hm top
+
 /-
-Full statement (not proved): additionally `specDurable ops (finalObs …) = true`, and `specTrunc`
-/ `specFlip` of the model's observations of every truncated / flipped image.  What is missing
-is bookkeeping, not a new idea: the `durability` marking against the writer's `flushed`
-counter, and the index arithmetic of `List.modify` for a cut or flip in a middle file of a
-directory.  The facts those specifications check are proved above in direct form
-(`C15_flush_then_crash_loses_nothing`, `C15_crash_keeps_prefix`, `C15_replay_truncate`,
-`C15_flip_entry_detected`, `C15_flip_cksum_detected`); the harness evaluates all of
-`specHistory`, `specTrunc`, `specFlip` on the implementation and compares the model with the
+Not proved of the model: `specFlip` for a byte in a torn tail (`locate = none`; only the
+"nothing is delivered altered" clauses apply there — it needs the invariant to remember
+*which* appended record the tail is a prefix of), and for a byte in the 8-byte sequence
+field, where `specFlip` is *false* of the model and of the code — the known finding
+`seq-flip-undetected` (`C15_counterexample_seqflip_undetected`).  The harness evaluates
+`specFlip` on the implementation for all regions and compares the model with the
 implementation on the same cases.
 -/
 
@@ -322,6 +409,18 @@ example : replay Mode.fixed dec1 ((frames [⟨1, [7]⟩, ⟨2, [9]⟩]).take 25)
 
 example : replay Mode.fixed decLen (flipByte (frame ⟨1, [5, 7, 6, 0, 0, 0]⟩) 12 4)
     = ([], End.corrupt 1) := by decide
+
+/-- the hypotheses of the variant theorems are satisfiable: offsets 12 and 13 of a one-byte-entry
+frame are its entry and the first checksum byte, offset 2 is in its length prefix, and the toy
+decoder `decLen` is prefix-free on the entry `[1, 7]` -/
+example : locate [⟨1, [7]⟩, ⟨2, [9]⟩] 12 = some (0, .entry)
+    ∧ locate [⟨1, [7]⟩, ⟨2, [9]⟩] 30 = some (1, .cksum)
+    ∧ locate [⟨1, [7]⟩, ⟨2, [9]⟩] 19 = some (1, .len) := by decide
+
+example : ∀ m, m < ([1, 7] : Bytes).length → decLen (([1, 7] : Bytes).take m) = none := by decide
+
+example : (durability [.append [7], .flush, .append [8], .crash 30, .append [9]] false [] [])
+    = [([7], true), ([8], false), ([9], true)] := by decide
 
 /-- a history with a crash in the middle of the second record: one record survives, the
 counter resumes at 1, the next append is numbered 2 and lands in a new file -/
